@@ -41,15 +41,16 @@ contract(V + "_MessageSerializer.serialize", props=["C13"], types={"message": "d
                                "(last(CALLS).tag == 'exc' and last(CALLS).d == box(exc)) or isinst(exc, 'KeyError')", ["C13"])]}])
 
 contract(V + "_MessageSerializer.validate", props=["C14"], types={"message": "dict"}, returns="none",
-         ghosts={"NV": "int"}, ghost_defaults={"NV": "0"},
+         ghosts={"NV": "int", "KEYS": "seq"}, ghost_defaults={"NV": "0"},
          after={"Field.validate#0": [("NV", "NV + 1")]},
          modifies=["#CALLS", "#NTOP"],
-         loops={0: {"locals": {"NV": "int"}, "modifies": ["#CALLS", "#NTOP"],
-                    "inv": [("declared-fields-so-far-present-and-accepted", "NV == _i and none_missing(_done, message)"),
+         loops={0: {"locals": {"NV": "int"}, "modifies": ["#CALLS", "#NTOP"], "ghost_init": [("KEYS", "_s")],
+                    "inv": [("declared-fields-so-far-present-and-accepted", "NV == _i and none_missing(_done, message) and KEYS == _s"),
                             ("message-untouched", "dict_of(message) == old(dict_of(message)) and dict_of(self.fields) == old(dict_of(self.fields))")]},
                 1: {"locals": {}, "modifies": [],
                     "inv": [("no-undeclared-key-so-far", "forall(lambda k: implies(contains(_done, k), contains(dict_of(self.fields), k) or k == 'task_level' or k == 'task_uuid' or k == 'timestamp'), 'val')")]}},
-         ensures=[("accepted-means-every-declared-field-present-and-validated", "NV == card(self.fields) and forall(lambda k: implies(contains(dict_of(self.fields), k), contains(dict_of(message), k)), 'val')", ["C14"]),
+         ensures=[("accepted-means-every-declared-field-present-and-validated", "NV == card(self.fields) and none_missing(KEYS, message) and len(KEYS) == card(self.fields) and "
+                   "forall(lambda k: contains(KEYS, k) == contains(dict_of(self.fields), k), 'val')", ["C14"]),
                   ("accepted-means-no-undeclared-field-unless-allowed",
                    "self.allow_additional_fields or forall(lambda k: implies(contains(dict_of(message), k), contains(dict_of(self.fields), k) or k == 'task_level' or k == 'task_uuid' or k == 'timestamp'), 'val')", ["C14"]),
                   ("message-not-modified", "dict_of(message) == old(dict_of(message))", ["C14"])],
